@@ -4,12 +4,12 @@ CONSTANTS
   Reqs = {"r1","r2"}
   Gets = {"g1"}
   Prime <- PrimeAll
-  Store = FALSE
-  Json = TRUE
+  Store = TRUE
+  Json = FALSE
   Stateless = FALSE
   MaxEmit = 1
   MaxSreq = 0
-  MaxSa = 1
+  MaxSa = 0
   Gates = FALSE
 VIEW MCView
 INVARIANTS ResumeExact IdsDense IdStable StoreBeforeDeliver CompleteAtEnd CompleteAtRest FinalObtainable RefusedOnlyOnConflict ResponseOnOwnExchange NestedRouting NoCrossSession RoutingEntryLifecycle LockDiscipline
